@@ -4,7 +4,7 @@
   int64 arithmetic is Lean's `Int64`: `/` truncates toward zero and `%` takes the sign of the
   dividend, as in Go.  The result is `unix.Timeval{Sec, Usec}`; with `ADJ_NANO` the kernel
   reads `Usec` as nanoseconds and requires it to be non-negative.
-  (base/unixutil/freq.go is floating point: modelled separately over Model/F64, see notes/C18.md.)
+  (base/unixutil/freq.go is floating point: modelled in Model/FreqDrift.lean over Model/F64.)
 -/
 namespace ScionTime.Unixutil
 
